@@ -96,3 +96,49 @@ Print Assumptions C03_code_header_fields.
 Print Assumptions C03_code_raw_message_is_model.
 Print Assumptions C03_code_tlv_walk_is_model.
 Print Assumptions C03_code_decode_front_is_model.
+
+(* ---- the reassembler's Rust text (lib.rs StunPacketDecoder::new / decode, translated on every run, Proofs/CodeAgreeReasm.v):
+   no decode() call of the caller's loop run over the TRANSLATED code panics, for every buffer handed to new and every
+   chunking of every byte stream (hypotheses: elements are bytes; len buffer + len chunk < 2^64) *)
+From Rustun Require Proofs.CodeAgreeReasm.
+Theorem C03_code_reassembler_no_panic : forall fb chunks cs, Tlv.bytes_ok fb = true ->
+  Forall (fun c => Tlv.bytes_ok c = true /\ Tlv.len fb + Tlv.len c < 18446744073709551616) chunks ->
+  In cs (CodeAgreeReasm.gen_run_log fb chunks) -> ~ In CPanic cs.
+Proof. exact CodeAgreeReasm.gen_run_log_no_panic. Qed.
+(* exactly when a single translated decode() panics: CodeAgreeReasm.code_ok is the precise guard (it holds of every decoder the
+   public API can produce, C16_code_decode_under_invariant); the translated decode never runs out of fuel (it has no loop) *)
+Theorem C03_code_reassembler_guard_def : forall g L, CodeAgreeReasm.code_ok g L =
+  match StunPacketDecoder_expected_size g with
+  | Some size => (StunPacketDecoder_current_size g <=? size)
+                 && (if size - StunPacketDecoder_current_size g <=? L then size <=? Tlv.len (StunPacketDecoder_buffer g)
+                     else StunPacketDecoder_current_size g + L <=? Tlv.len (StunPacketDecoder_buffer g))
+  | None => if 20 <=? StunPacketDecoder_current_size g + L
+            then (StunPacketDecoder_current_size g <=? 20) && (20 <=? Tlv.len (StunPacketDecoder_buffer g))
+            else StunPacketDecoder_current_size g + L <=? Tlv.len (StunPacketDecoder_buffer g)
+  end.
+Proof. exact CodeAgreeReasm.code_ok_unfold. Qed.
+Theorem C03_code_reassembler_panic_exact : forall g d data,
+  CodeAgreeReasm.Rep g d -> Tlv.bytes_ok (StunPacketDecoder_buffer g) = true -> Tlv.bytes_ok data = true ->
+  Tlv.len (StunPacketDecoder_buffer g) + Tlv.len data < 18446744073709551616 ->
+  (gen_StunPacketDecoder_decode g data = GPanic <-> CodeAgreeReasm.code_ok g (Tlv.len data) = false)
+  /\ gen_StunPacketDecoder_decode g data <> GFuel.
+Proof. exact CodeAgreeReasm.gen_decode_panic_iff. Qed.
+(* the model's guard slices_ok (feed_rs) is sound for the code: where it holds the code does not panic whatever the chunk;
+   where it fails the code panics as soon as a chunk reaches the missing room (the model says panic for EVERY chunk there:
+   its guard is coarser, CodeAgreeReasm.slices_ok_coarser_size / _small_buffer; such states cannot be built through the API) *)
+Theorem C03_code_reassembler_model_guard_sound : forall g d L,
+  CodeAgreeReasm.Rep g d -> slices_ok d = true -> CodeAgreeReasm.code_ok g L = true.
+Proof. exact CodeAgreeReasm.slices_ok_code_ok. Qed.
+Theorem C03_code_reassembler_model_panic_is_code_panic : forall g d data,
+  CodeAgreeReasm.Rep g d -> slices_ok d = false ->
+  match expd d with
+  | Some size => size < Tlv.len (acc d) \/ size - Tlv.len (acc d) <= Tlv.len data
+  | None => 20 <= Tlv.len (acc d) + Tlv.len data
+  end ->
+  gen_StunPacketDecoder_decode g data = GPanic /\ feed_rs d data = PanicO.
+Proof. exact CodeAgreeReasm.slices_bad_panics. Qed.
+Print Assumptions C03_code_reassembler_no_panic.
+Print Assumptions C03_code_reassembler_guard_def.
+Print Assumptions C03_code_reassembler_panic_exact.
+Print Assumptions C03_code_reassembler_model_guard_sound.
+Print Assumptions C03_code_reassembler_model_panic_is_code_panic.
